@@ -948,13 +948,22 @@ class IASolverBaseClass:  # pylint: disable=R0902
         if noise_power is None:
             noise_power = self.noise_var
 
+        # Covariance matrix of everything that is not a stream of some
+        # user: the noise and, if the channel object has external
+        # interference sources, their covariance matrix (with unit power,
+        # which is also what `calc_Q` accounts for).
+        Rek = noise_power * np.eye(self.Nr[k])
+        if isinstance(self._multiUserChannel,
+                      muchannels.MultiUserChannelMatrixExtInt):
+            Rek = Rek + self._multiUserChannel.\
+                calc_cov_matrix_extint_without_noise()[k]
+
         assert (self._Ns is not None)
         Bkl_all_l = np.empty(self._Ns[k], dtype=np.ndarray)
         first_part = self._calc_Bkl_cov_matrix_first_part(k)
         for l in range(self._Ns[k]):
             second_part = self._calc_Bkl_cov_matrix_second_part(k, l)
-            Bkl_all_l[l] = first_part - second_part + (noise_power *
-                                                       np.eye(self.Nr[k]))
+            Bkl_all_l[l] = first_part - second_part + Rek
 
         return Bkl_all_l
 
